@@ -42,8 +42,8 @@ def run(ctx):
         ctx.stream("c11/%d" % k, [fcdrv], env=env, timeout=1800, max_samples=2)
     # for the end-to-end lines the oracle's answer is the specification (denote): mismatch = failing input
     for name, st in ctx.streams.items():
-        for (i, e, o) in st.get("_mism", [])[:3]:
-            if i.startswith("(c11.lit"):
+        for (i, e, o) in [m for m in st.get("_mism", []) if m[0].startswith("(c11.lit")][:3]:
+            if True:
                 ctx.direct.append({"kind": "printed text differs from the denoted text", "input": i, "denoted": e, "printed": o, "stream": name})
     # known finding D11: float-typed hole renders with %f, the statement says %v
     rc, o = vlib.sh([libdrv, "lib.floathole", "0", "0"], timeout=60)
